@@ -323,6 +323,43 @@ func (i *Inst) RunHostile(s *HsScript, tw *TraceWriter, rng *rand.Rand) error {
 		} else if rep.status >= 400 {
 			outcome = "error-reply"
 		}
+	case "header":
+		// headers the gateway's middleware reads on every request, before anything is authenticated: sent to the gateway
+		// endpoint and to a web endpoint
+		hdr := map[string][2]string{"xff-unknown": {"X-Forwarded-For", []string{"unknown", "UNKNOWN", "Unknown"}[rng.Intn(3)]}, "xff-commas": {"X-Forwarded-For", []string{",", ",,", ", ,"}[rng.Intn(3)]},
+			"xff-unknown-list": {"X-Forwarded-For", []string{"unknown, unknown", "UNKNOWN,", ",unknown"}[rng.Intn(3)]}, "xff-blank-elements": {"X-Forwarded-For", " , , "},
+			"xff-huge": {"X-Forwarded-For", strings.Repeat("10.0.0.1, ", 3000) + "10.0.0.2"}, "xff-nonaddress": {"X-Forwarded-For", []string{"[", "]:", "::::", "%", "1.2.3.4.5:x:y", "[::1"}[rng.Intn(6)]},
+			"connid-empty": {"Rdg-Connection-Id", ""}, "connid-huge": {"Rdg-Connection-Id", strings.Repeat("{", 20000)}, "upgrade-other": {"Upgrade", "h2c"},
+			"cookie-garbage": {"Cookie", "rdpgw-auth=" + strings.Repeat("%", 50) + "; =; ;;"}}[s.Cls]
+		if hdr[0] == "" {
+			return fmt.Errorf("unknown header class %q", s.Cls)
+		}
+		outcome = "error-reply"
+		for _, target := range []string{"gateway", "connect", "tokeninfo"} {
+			c, err := i.hdial()
+			if err != nil {
+				return err
+			}
+			var rep *hreply
+			if target == "gateway" {
+				cid = i.R.NextCid("hd")
+				id := cid
+				hs := [][2]string{hdr}
+				if hdr[0] == "Rdg-Connection-Id" {
+					id, hs = hdr[1], nil
+				}
+				rep, err = c.do("RDG_OUT_DATA", i.P.Addr, id, hs, s.Cls != "upgrade-other")
+			} else {
+				rep, err = c.get("/"+target, i.P.Addr, [][2]string{hdr})
+			}
+			c.c.Close()
+			if err != nil {
+				outcome = "closed-that-connection"
+				time.Sleep(10 * time.Millisecond)
+			} else if rep.status < 400 && outcome == "error-reply" {
+				outcome = "served"
+			}
+		}
 	case "ntlm-message":
 		// through the gateway's NTLM front door into the real rdpgw-auth
 		var msg []byte
